@@ -152,6 +152,19 @@ def judge(case) -> Outcome:
             out.fail("c20.symbolic", f"{f!r} wrt {wrt} via {entry}: derivative terms {got} != product rule {exp}")
             return out
     d = ds[0]
+    if entry == "formula" and len(wrt) >= 2:  # variables applied successively: a gradient differentiated again
+        try:
+            chained = form
+            for v in wrt:
+                chained = chained.differentiate(v)
+            got2 = [sorted(x.expr for x in t.factors) for t in chained]
+            if got2 != exp:
+                out.fail("c20.symbolic", f"{f!r}: differentiating successively by {wrt} gives {got2} != product rule {exp}")
+                return out
+            out.see("chained_gradients")
+        except Exception as e:  # noqa: BLE001
+            out.fail("c20.differentiate_raised", f"{f!r} wrt {wrt} one variable at a time: {type(e).__name__}: {e}")
+            return out
     if list(map(repr, form)) != list(map(repr, Formula(f, _ordering=case["ordering"]))):
         out.fail("c20.mutated_formula", "differentiate changed the original formula")
     out.see("symbolic_ok")
